@@ -69,6 +69,24 @@ def rule_map(chk: Check, model, cv: CompiledView, rid: str):
     f_rs = model.func("graph.Graph.run_supervisor")
     collect(cv.run_supervisor.events, f_rs, "Graph.run_supervisor")
     chk.floor(rid, "reads of an output buffer by sequence number", len(readers), 3)
+    # the supervisor's windows are gathered from the rings as they are *after* all generations of the partition have written: the state
+    # its reads index is the state its new step state is stored into (the result of the generation loop / scan)
+    f_S = cv.fi("_run_S")
+
+    def _leaves(t):
+        return _leaves(t[2]) + _leaves(t[3]) if t[0] == "ite" else [t]
+    rss = [e for e in cv.run_S.events if e.kind == "call" and e.name.endswith("replace_step_states") and e.func == f_S.qualname]
+    sup_reads = [e for e in cv.run_S.events if e.kind == "call" and e.name == "rex.jax_utils.tree_take" and e.args and all(_is_buffer(b) for b in _leaves(e.args[0])) and len(e.loops) == 1
+                 and not any(cv.run_S.loops[l_].kind in ("for", "scan") and cv.run_S.loops[l_].iter != T.NONE and mentions(cv.run_S.loops[l_].iter, "timings_gen") for l_ in e.loops if l_ in cv.run_S.loops)]
+    oks = len(rss) == 1 and len(sup_reads) >= 1
+    if oks:
+        post = _leaves(rss[0].recv)
+        for e in sup_reads:
+            bases = [(b[1][1] if b[1][0] == "attr" else S(b[1][1][:-len(".buffer")])) if b[0] == "index" else None for b in _leaves(e.args[0])]
+            oks = oks and bases == post
+    chk.add(rid, "reader: the supervisor gathers its windows after the partition's generations have run", bool(oks),
+            f"the supervisor's window reads in _run_S use the buffers of {T.show(sup_reads[0].args[0])[:140] if sup_reads else None}; expected the graph state that results from the generation loop / scan "
+            "(messages produced in the same partition are in the schedule of the supervisor's window)", chk.loc(f_S, sup_reads[0].node if sup_reads else None))
     for where, fi, e in readers:
         chk.used(fi.qualname)
         buf = e.args[0]
@@ -276,6 +294,12 @@ def rule_sizes(chk: Check, model, rid: str):
     parts = [n for n in ast.walk(f_mt.node) if isinstance(n, ast.Call) and ast.unparse(n.func).endswith("partial") and n.args and isinstance(n.args[0], ast.Name) and len(n.args) == 2
              and isinstance(n.args[1], ast.UnaryOp) and isinstance(n.args[1].op, ast.Invert) and isinstance(n.args[1].operand, ast.Attribute) and n.args[1].operand.attr == "run"]
     okm = okm and len(makers) == 1 and makers[0].func.attr == "masked_array" and len(parts) == 1
+    # ... over every episode of the schedule: the slot table that is masked is the timings' own, whole (not a selection of episodes)
+    rmt = SymEval(model).run_function(f_mt)
+    its = [l.iter for l in rmt.loops.values() if l.iter is not None and l.iter[0] == "call" and T.call_name(l.iter).endswith(".slots.items")]
+    chk.add(rid, "the sizing looks at the slots of every episode", bool(its) and all(i == T.mk_call("self.slots.items", []) for i in its),
+            f"get_masked_timings iterates {sorted({T.show(i)[:100] for i in its})}, expected self.slots.items() only (episodes left out of the sizing get rings that are too small "
+            "for their write/read spread)", chk.loc(f_mt))
     chk.add(rid, "only slots that do not run are masked out of the sizing", bool(okm), f"get_masked_timings has {len(mask_writes)} mask write(s), {len(makers)} masked-array construction(s), "
             f"{len(parts)} `~run` mask(s): entries may be masked only because their slot does not run (or belongs to another generation); masking e.g. seq < 0 entries makes the ring too "
             "small for the default-output slot", chk.loc(f_mt, mask_writes[1] if len(mask_writes) > 1 else None))
